@@ -128,7 +128,7 @@ func runStreamDirect(c *streamCase) []Ev {
 			buf[i] = 0xEE
 		}
 		copy(buf, s)
-		e := Ev{"ev": "segment", "conn": 1, "bytes": ints(s), "out": []int{}, "close": false, "panic": false}
+		e := Ev{"ev": "segment", "conn": 1, "bytes": ints(s), "out": []int{}, "close": false, "panic": false, "stuck": false}
 		func() {
 			defer func() {
 				if p := recover(); p != nil {
@@ -261,7 +261,7 @@ func runStreamE2E(c *streamCase) []Ev {
 	}()
 	seen := 0
 	for _, s := range segments(c) {
-		e := Ev{"ev": "segment", "conn": 1, "bytes": ints(s), "out": []int{}, "close": false, "panic": false}
+		e := Ev{"ev": "segment", "conn": 1, "bytes": ints(s), "out": []int{}, "close": false, "panic": false, "stuck": false}
 		conn.SetWriteDeadline(time.Now().Add(2 * time.Second))
 		if _, err := conn.Write(s); err != nil {
 			e["close"] = true
@@ -269,11 +269,36 @@ func runStreamE2E(c *streamCase) []Ev {
 			break
 		}
 		var res tapResult
-		select {
-		case res = <-tap.done:
-		case <-time.After(3 * time.Second):
-			evs = append(evs, Ev{"ev": "harness", "what": "server did not process the read"})
-			return evs
+		gone := false
+		waitUntil := time.Now().Add(3 * time.Second)
+	waitTap:
+		for {
+			select {
+			case res = <-tap.done:
+				break waitTap
+			case <-time.After(2 * time.Millisecond):
+				rmu.Lock()
+				isEOF := eof
+				rmu.Unlock()
+				if isEOF {
+					// the server closed the connection without handing the read to its assembler: an observation
+					gone = true
+					break waitTap
+				}
+				if time.Now().After(waitUntil) {
+					evs = append(evs, Ev{"ev": "harness", "what": "server did not process the read"})
+					return evs
+				}
+			}
+		}
+		if gone {
+			rmu.Lock()
+			e["out"] = ints(got[seen:])
+			seen = len(got)
+			rmu.Unlock()
+			e["close"] = true
+			evs = append(evs, e)
+			break
 		}
 		e["panic"] = res.pan
 		// what the client receives after this segment
@@ -340,7 +365,7 @@ func streamHook(point string, conn net.Conn, n int64) {
 	}
 	if v, ok := connHooks.Load(conn); ok {
 		switch point {
-		case "conn.wrote", "conn.writefail", "conn.unmark", "conn.exit":
+		case "conn.mark", "conn.wrote", "conn.writefail", "conn.unmark", "conn.exit":
 			select {
 			case v.(chan connHookEv) <- connHookEv{point, n}:
 			default:
@@ -360,6 +385,7 @@ type connPeer struct {
 	eof    bool
 	seen   int
 	exited bool
+	nosync bool
 }
 
 func (p *connPeer) reader() {
@@ -385,7 +411,7 @@ func (p *connPeer) send(n int) Ev {
 	}
 	s := p.all[p.off : p.off+n]
 	p.off += n
-	e := Ev{"ev": "segment", "conn": p.id, "bytes": ints(s), "out": []int{}, "close": false, "panic": false}
+	e := Ev{"ev": "segment", "conn": p.id, "bytes": ints(s), "out": []int{}, "close": false, "panic": false, "stuck": false}
 	if p.exited {
 		e["close"] = true
 		return e
@@ -395,13 +421,31 @@ func (p *connPeer) send(n int) Ev {
 		e["close"] = true
 		return e
 	}
+	if p.nosync {
+		// no hook to wait for (see below): give the server time, then take what has arrived / whether it hung up
+		deadline := time.Now().Add(300 * time.Millisecond)
+		for time.Now().Before(deadline) {
+			p.mu.Lock()
+			isEOF := p.eof
+			p.mu.Unlock()
+			if isEOF {
+				break
+			}
+			time.Sleep(time.Millisecond)
+		}
+		p.collect(e, 0)
+		return e
+	}
 	wrote := 0
+	marked := false
 	timeout := time.After(3 * time.Second)
 wait:
 	for {
 		select {
 		case h := <-p.hook:
 			switch h.point {
+			case "conn.mark":
+				marked = true
 			case "conn.wrote":
 				wrote += int(h.n)
 			case "conn.unmark":
@@ -411,6 +455,16 @@ wait:
 				break wait
 			}
 		case <-timeout:
+			if marked {
+				// the server took the read and marked the connection as being handled, but never came to the end of
+				// its handling (3 s; the handler answers at once): an observation about the server, not driver trouble
+				// The driver goes on without that synchronisation point: later reads on this connection are
+				// followed by a fixed wait instead.
+				e["stuck"] = true
+				p.collect(e, wrote)
+				p.nosync = true
+				return e
+			}
 			return Ev{"ev": "harness", "what": "server did not handle the read"}
 		}
 	}
@@ -495,7 +549,7 @@ func runStreamConns(c *streamCase) []Ev {
 				evs = append(evs, p.send(st.N))
 			case "leave":
 				// whatever reached this client after its last read belongs to the stream too
-				e := Ev{"ev": "segment", "conn": p.id, "bytes": []int{}, "out": []int{}, "close": false, "panic": false}
+				e := Ev{"ev": "segment", "conn": p.id, "bytes": []int{}, "out": []int{}, "close": false, "panic": false, "stuck": false}
 				p.collect(e, 0)
 				evs = append(evs, e)
 				p.conn.Close()
